@@ -127,7 +127,19 @@ func (s *appStream) walkPrepare(r *tr.Rng, script *appsim.BlockScript) {
 				done <- res{nil, fmt.Errorf("panic: %v", e)}
 			}
 		}()
-		txs, err := sim.PrepareWith(pool, pool)
+		var txs [][]byte
+		var err error
+		for try := 0; try < 3; try++ {
+			// the handler gives the execution client 1.2 s: on a loaded machine the (fake) engine may miss that, which says
+			// nothing about the handler - try again with the same mempool
+			pool.evicted, pool.looked = nil, 0
+			sim.Engine.SetNext(script)
+			txs, err = sim.PrepareWith(pool, pool)
+			if err == nil || !isEngineTimeout(err) {
+				break
+			}
+			sim.EngineBarrier()
+		}
 		done <- res{txs, err}
 	}()
 	vs := make([]string, n)
@@ -166,4 +178,9 @@ func (s *appStream) walkPrepare(r *tr.Rng, script *appsim.BlockScript) {
 		return
 	}
 	s.emit(op, fmt.Sprintf("ok sel=%s ev=%s looked=%d", ints(sel), ints(pool.evicted), pool.looked))
+}
+
+func isEngineTimeout(err error) bool {
+	m := err.Error()
+	return strings.Contains(m, "deadline exceeded") || strings.Contains(m, "context canceled") || strings.Contains(m, "timeout")
 }
